@@ -18,6 +18,10 @@ Inductive task :=
 | TJoin (h : nat) (k : task)                                   (* h.await *)
 | TAbortT (h : nat) (k : task)                                 (* h.abort() *)
 | TYield (n : nat) (k : task)                                  (* wake self and return Pending, n times *)
+| TBoth (tg1 : nat) (e1 : expr) (x1 : nat) (tg2 : nat) (e2 : expr) (x2 : nat) (k : task)
+     (* let (x1, x2) = futures::join!(request(op1), request(op2)) *)
+| TRace (tg1 : nat) (e1 : expr) (tg2 : nat) (e2 : expr) (x : nat) (k : task)
+     (* x = select_biased! { a = request(op1) => a, b = request(op2) => b }; the loser is dropped *)
 | THost (names : list nat) (meff mev : nat) (main : task) (extra : list task) (k : task).
    (* host a command (main task + spawned extras) whose outputs are mapped by meff / mev (0 = not
       mapped) and forwarded to this task's command; names = the abort handles retained for that command
